@@ -24,6 +24,13 @@ Ops == {"flip-hdr", "flip-body", "flip-mac", "flip-len", "truncate", "dup", "swa
   \* reflect: a link frame the RECEIVER sealed for the opposite direction of the same link is put in front of the unit: it is
   \*          well framed and its sequence number is fresh, but the two directions have different keys - it must not unseal
 Breaks(op) == op \in {"flip-len", "truncate", "garbage-raw"}
+(* A link may have PREDECESSORS: earlier links between the same two routers (the link went down, the routers connected   *)
+(* again; neither was restarted).  The attacker kept what crossed their wires.                                            *)
+  \* prev-link: a link frame recorded on an earlier link between the same two routers (sealed by either end) is put in front
+  \*          of the unit: it is well framed and the new link's window has not seen its sequence number, but every link has
+  \*          keys of its own - it must not unseal, whichever end sealed it and whichever end dialled then and now
+PrevOps == {"prev-link"}
+AllOps == Ops \cup PrevOps
 
 VARIABLES wire,      \* sequence of units still to be read: [id, intact, breaks]   (id 0 = garbage)
           next,      \* next frame the sender will hand to the link
@@ -60,7 +67,7 @@ Fault(op, p) ==
                [] op = "swap" -> [wire EXCEPT ![p] = wire[p + 1], ![p + 1] = wire[p]]
                [] op = "replay-late" -> Append(wire, wire[p])
                [] op = "drop" -> SubSeq(wire, 1, p - 1) \o SubSeq(wire, p + 1, Len(wire))
-               [] op \in {"garbage-framed", "reflect"} -> SubSeq(wire, 1, p - 1) \o <<Garbage(FALSE)>> \o SubSeq(wire, p, Len(wire))
+               [] op \in {"garbage-framed", "reflect", "prev-link"} -> SubSeq(wire, 1, p - 1) \o <<Garbage(FALSE)>> \o SubSeq(wire, p, Len(wire))
                [] op = "garbage-raw" -> SubSeq(wire, 1, p - 1) \o <<Garbage(TRUE)>> \o SubSeq(wire, p, Len(wire))
   /\ faults' = faults + 1
   /\ act' = [name |-> "fault", op |-> op, at |-> wire[p].id, after |-> IF op = "replay-late" THEN wire[Len(wire)].id ELSE 0]
@@ -100,6 +107,11 @@ Read ==
 
 Next == Send \/ Read \/ (\E op \in Ops, p \in 1..N : Fault(op, p))
 Spec == Init /\ [][Next]_vars
+(* the link has predecessors (stage M checks this one; Next is kept for the graph the fault plans of a first link are taken from) *)
+NextPrev == Send \/ Read \/ (\E op \in AllOps, p \in 1..N : Fault(op, p))
+SpecPrev == Init /\ [][NextPrev]_vars
+(* the graph the fault plans of a successor link are taken from: prev-link stands for every well-framed unit that must not unseal *)
+NextPrevOnly == Send \/ Read \/ (\E op \in AllOps \ {"garbage-framed", "reflect"}, p \in 1..N : Fault(op, p))
 
 (* Properties (C05). *)
 OnlySent == \A i \in DOMAIN delivered : delivered[i] \in 1..N
